@@ -47,6 +47,7 @@ func seqPrelude(S, E Sort) string {
 (assert (forall ((s $S) (n Int)) (! (=> (= n (len.$S s)) (and (= (take.$S s n) s) (= (drop.$S s n) empty.$S))) :pattern ((take.$S s n)) :pattern ((drop.$S s n)) :qid takedrop_all.$S)))
 (assert (forall ((a $S) (b $S) (n Int)) (! (=> (= n (len.$S a)) (= (take.$S (cat.$S a b) n) a)) :pattern ((take.$S (cat.$S a b) n)) :qid take_cat.$S)))
 (assert (forall ((a $S) (b $S) (n Int)) (! (=> (= n (len.$S a)) (= (drop.$S (cat.$S a b) n) b)) :pattern ((drop.$S (cat.$S a b) n)) :qid drop_cat.$S)))
+(assert (forall ((a $S) (b $S) (n Int)) (! (=> (and (<= 0 n) (<= n (len.$S a))) (= (drop.$S (cat.$S a b) n) (cat.$S (drop.$S a n) b))) :pattern ((drop.$S (cat.$S a b) n)) :qid drop_cat2.$S)))
 (assert (forall ((s $S) (n Int)) (! (=> (and (<= 0 n) (<= n (len.$S s))) (= (cat.$S (take.$S s n) (drop.$S s n)) s)) :pattern ((take.$S s n) (drop.$S s n)) :qid take_drop_cat.$S)))
 (assert (forall ((s $S) (n Int)) (! (=> (and (<= 0 n) (< n (len.$S s))) (= (take.$S s (+ n 1)) (cat.$S (take.$S s n) (unit.$S (at.$S s n))))) :pattern ((take.$S s (+ n 1))) :qid take_succ.$S)))
 (assert (forall ((a $S) (b $S)) (! (= (eq.$S a b) (and (= (len.$S a) (len.$S b)) (forall ((i Int)) (! (=> (and (<= 0 i) (< i (len.$S a))) (= (at.$S a i) (at.$S b i))) :pattern ((at.$S a i)) :pattern ((at.$S b i)) :qid eq_inner.$S))))
